@@ -249,7 +249,16 @@ func atomExpected(a atom, fd pref.FieldDescriptor, x, y pref.Value) (exp string,
 		dx, dy := mx.Interface().(*durationpb.Duration).AsDuration(), my.Interface().(*durationpb.Duration).AsDuration()
 		return b2s(withinOracle(big.NewInt(int64(dx)), big.NewInt(int64(dy)), a.D)) + ",true", true, "valid"
 	}
-	return "", false, "" // dp: no stated tolerance semantics to compare against; symmetry/reflexivity only
+	// dp: within p percent of each other
+	mx, my := x.Message(), y.Message()
+	if !mx.IsValid() || !my.IsValid() {
+		return b2s(mx.IsValid() == my.IsValid()) + ",true", true, "invalid"
+	}
+	dx, dy := int64(mx.Interface().(*durationpb.Duration).AsDuration()), int64(my.Interface().(*durationpb.Duration).AsDuration())
+	if !exactDP(float32(a.A), dx, dy) {
+		return "", false, ""
+	}
+	return b2s(dpOracle(float32(a.A), dx, dy)) + ",true", true, "valid"
 }
 
 func atomName(k string) string {
@@ -289,7 +298,7 @@ func (c vcase) monitor(ms *monitors) string {
 				}
 				ms.tol.Violate(sig, "value comparer answer differs from exact arithmetic / own-kind rule", in, exp, out[0])
 			}
-		} else if a.Kind != "dp" {
+		} else {
 			ms.tol.Count("skipped-inexact-or-negative")
 		}
 		if ownKind(a, fd) && a.A >= 0 && a.B >= 0 && a.D >= 0 {
@@ -347,13 +356,13 @@ func (g *gen) timeMsg(fd pref.FieldDescriptor) pref.Message {
 	return m
 }
 
-var smallNanos = []int32{0, 1, 2, 3, 4, 8, -1, -2, -4, 500000000}
+var smallNanos = []int32{0, 1, 2, 3, 4, 5, 8, -1, -2, -4, 500000000}
 
 func (g *gen) vpair(p position, forDP bool) (pref.Value, pref.Value) {
 	fd := p.fd()
 	switch {
 	case forDP && fd.Kind() == pref.MessageKind && fd.Message().FullName() == "google.protobuf.Duration" && g.r.Intn(8) != 0:
-		// small durations so that float32(x)/float32(y) is usually exact
+		// small durations: the percentages of the atom domain sit on, below and above their relative differences
 		x := &durationpb.Duration{Nanos: smallNanos[g.r.Intn(len(smallNanos))]}
 		y := &durationpb.Duration{Nanos: smallNanos[g.r.Intn(len(smallNanos))]}
 		if g.r.Intn(4) == 0 {
@@ -493,7 +502,8 @@ func (c vcase) inexact() bool {
 			if fd.Kind() == pref.MessageKind && fd.Message().FullName() == "google.protobuf.Duration" {
 				mx, my := c.X.Message(), c.Y.Message()
 				if mx.IsValid() && my.IsValid() {
-					if !exactDiv32(int64(mx.Interface().(*durationpb.Duration).AsDuration()), int64(my.Interface().(*durationpb.Duration).AsDuration())) {
+					dx, dy := int64(mx.Interface().(*durationpb.Duration).AsDuration()), int64(my.Interface().(*durationpb.Duration).AsDuration())
+					if !exactDP(float32(a.A), dx, dy) || !exactDP(float32(a.A), dy, dx) || !exactDP(float32(a.A), dx, dx) || !exactDP(float32(a.A), dy, dy) {
 						return true
 					}
 				}
@@ -503,16 +513,45 @@ func (c vcase) inexact() bool {
 	return false
 }
 
-// exactDiv32: float32(x)/float32(y) is computed without rounding.
-func exactDiv32(x, y int64) bool {
-	fx, fy := float32(x), float32(y)
-	if math.Abs(float64(fx)) >= 1<<62 || math.Abs(float64(fy)) >= 1<<62 || int64(fx) != x || int64(fy) != y {
+// dpOracle: "within p percent of each other" in exact arithmetic: 100·|x−y| <= p·min(|x|,|y|).
+func dpOracle(p float32, x, y int64) bool {
+	bx, by := big.NewInt(x), big.NewInt(y)
+	d := new(big.Int).Sub(bx, by)
+	d.Abs(d)
+	lhs := new(big.Rat).SetInt(d.Mul(d, big.NewInt(100)))
+	m := new(big.Int).Abs(bx)
+	if ay := new(big.Int).Abs(by); ay.Cmp(m) < 0 {
+		m = ay
+	}
+	rhs := new(big.Rat).Mul(ratOfFloat(float64(p)), new(big.Rat).SetInt(m))
+	return lhs.Cmp(rhs) <= 0
+}
+
+// exactDP: every float64 operation of DurationValueWithinP(p) on (x, y) is computed without rounding:
+// the two conversions, the difference, the product with 100 and p·min(|x|,|y|).
+func exactDP(p float32, x, y int64) bool {
+	if math.IsNaN(float64(p)) || math.IsInf(float64(p), 0) {
 		return false
 	}
-	if y == 0 {
-		return true
+	fx, fy := float64(x), float64(y)
+	exact := func(f float64, r *big.Rat) bool {
+		return !math.IsNaN(f) && !math.IsInf(f, 0) && ratOfFloat(f).Cmp(r) == 0
 	}
-	q := fx / fy
-	r := new(big.Rat).SetFrac(big.NewInt(x), big.NewInt(y))
-	return ratOfFloat(float64(q)).Cmp(r) == 0
+	rx, ry := new(big.Rat).SetInt64(x), new(big.Rat).SetInt64(y)
+	if !exact(fx, rx) || !exact(fy, ry) {
+		return false
+	}
+	d := new(big.Rat).Sub(rx, ry)
+	d.Abs(d)
+	if !exact(math.Abs(fx-fy), d) {
+		return false
+	}
+	if !exact(math.Abs(fx-fy)*100, new(big.Rat).Mul(d, big.NewRat(100, 1))) {
+		return false
+	}
+	m := new(big.Rat).Abs(rx)
+	if ay := new(big.Rat).Abs(ry); ay.Cmp(m) < 0 {
+		m = ay
+	}
+	return exact(float64(p)*math.Min(math.Abs(fx), math.Abs(fy)), new(big.Rat).Mul(ratOfFloat(float64(p)), m))
 }
